@@ -5,12 +5,11 @@ import MxModel.Proofs.EditMachineOps3
 `CIW P lt w`: the structural invariant (`SM.Inv`, `run_inv`), every member has an identity, and the
 certificate invariant `CI` for the definitions READ OFF THE CURRENT STRUCTURE (`W.env`).
 
-`step_ciw`: one operation, given that its clearing covers what it changes (`StepCovers`) – which is
-* proved for the value-layer operations and for `new_space`, `del space`, `new_cells`,
-  `set_cells_property`, `del_cells`, `space.name = v`, `del_ref`, `add_bases`, `remove_bases`
-  (`stepCovers_of_proved`: from `SM.Inv` alone), and
-* decidable in general (`stepCovers_of_check`: the Boolean `Edit.stepCovered`), which is what remains
-  as a hypothesis for `rename_cells` (`Proved`).
+`step_ciw`: one operation, given that its clearing covers what it changes (`StepCovers`) – which is a
+theorem for EVERY operation of the machine (`stepCovers_of_inv`: from `SM.Inv` alone: `new_space`,
+`del space`, `new_cells`, `set_cells_property`, `del_cells`, `rename_cells`, `space.name = v`, `del_ref`,
+`add_bases`, `remove_bases`), and decidable besides (`stepCovers_of_check`: the Boolean
+`Edit.stepCovered`, which the driver evaluates at every step as a cross-check).
 -/
 namespace MxModel.Edit
 open MxModel.Exec MxModel.C02 MxModel.SM
@@ -28,11 +27,6 @@ def StepCovers (w : W) : Op → Prop
       Covers (w.tabs.grow st') w.sm st' (clearing P.kw (w.tabs.grow st') w.sm st' o)
   | _ => True
 
-/-- the operations for which coverage is a theorem -/
-def Proved : Op → Bool
-  | .struct (.renameCells _ _ _) => false
-  | _ => true
-
 theorem stepCovers_of_check (w : W) (op : Op) (hs : ∀ o, op = .struct o → supported o = true)
     (h : stepCovered P w op = true) : StepCovers P w op := by
   cases op with
@@ -43,8 +37,7 @@ theorem stepCovers_of_check (w : W) (op : Op) (hs : ∀ o, op = .struct o → su
   | _ => trivial
 
 /-- **coverage from the structural invariant alone** -/
-theorem stepCovers_of_proved (w : W) (op : Op) (hi : SM.Inv w.sm) (hp : Proved op = true) :
-    StepCovers P w op := by
+theorem stepCovers_of_inv (w : W) (op : Op) (hi : SM.Inv w.sm) : StepCovers P w op := by
   cases op with
   | struct o =>
     intro st' hop
@@ -55,7 +48,7 @@ theorem stepCovers_of_proved (w : W) (op : Op) (hi : SM.Inv w.sm) (hp : Proved o
     | newCells p name fname v => exact covers_newCells P.kw _ hi hi' p name fname v hop
     | setFormula p name v => exact covers_setFormula P.kw _ hi hi' p name v hop
     | delCells p name => exact covers_delCells P.kw _ hi hi' p name hop
-    | renameCells p old new => cases hp
+    | renameCells p old new => exact covers_renameCells P.kw _ hi hi' p old new hop
     | addBases p bs => exact covers_addBases P.kw _ hi hi' p bs hop
     | removeBases p bs => exact covers_removeBases P.kw _ hi hi' p bs hop
     | setRef p name v => exact covers_setRef P.kw _ hi hi' p name v hop
@@ -130,13 +123,10 @@ theorem step_ciw (ho : StrictOrder lt) (w : W) (op : Op) (hw : WF (w.env P) lt) 
 
 variable (P lt)
 
-/-- the definitions stay in the regime after every operation, and the clearing of `rename_cells` steps
-is checked (`stepCovered`, decidable) -/
+/-- the definitions stay in the regime after every operation -/
 def Admissible : W → List Op → Prop
   | _, [] => True
-  | w, op :: ops =>
-    (Proved op = true ∨ stepCovered P w op = true) ∧ WF ((step P w op).env P) lt ∧
-      Admissible (step P w op) ops
+  | w, op :: ops => WF ((step P w op).env P) lt ∧ Admissible (step P w op) ops
 
 theorem ciw_empty : CIW P lt {} := ⟨inv_empty, allocOK_empty, CI.empty _ lt⟩
 
@@ -149,21 +139,7 @@ theorem wf_empty : WF (({} : W).env P) lt := by
   · intro n; rw [hf]; trivial
   · intro n; rw [hf]; trivial
 
-theorem supported_of_unproved (op : Op) (h : Proved op = false) : ∀ o, op = .struct o → supported o = true := by
-  intro o ho
-  subst ho
-  cases o <;> simp_all [Proved, supported]
-
 variable {P lt}
-
-theorem stepCovers_of_admissible (w : W) (op : Op) (hi : SM.Inv w.sm)
-    (h : Proved op = true ∨ stepCovered P w op = true) : StepCovers P w op := by
-  cases hp : Proved op with
-  | true => exact stepCovers_of_proved P w op hi hp
-  | false =>
-    rcases h with h | h
-    · rw [hp] at h; cases h
-    · exact stepCovers_of_check P w op (supported_of_unproved op hp) h
 
 theorem run_ciw (ho : StrictOrder lt) : ∀ (ops : List Op) (w : W), WF (w.env P) lt → CIW P lt w →
     Admissible P lt w ops → CIW P lt (run P w ops) ∧ WF ((run P w ops).env P) lt := by
@@ -172,7 +148,7 @@ theorem run_ciw (ho : StrictOrder lt) : ∀ (ops : List Op) (w : W), WF (w.env P
   | nil => intro w hw h _; exact ⟨h, hw⟩
   | cons op rest ih =>
     intro w hw h hadm
-    obtain ⟨h1, h2, h3⟩ := hadm
-    exact ih (step P w op) h2 (step_ciw ho w op hw h (stepCovers_of_admissible w op h.inv h1)) h3
+    obtain ⟨h2, h3⟩ := hadm
+    exact ih (step P w op) h2 (step_ciw ho w op hw h (stepCovers_of_inv P w op h.inv)) h3
 
 end MxModel.Edit
